@@ -6,10 +6,29 @@
 // cases value (enc + rt + truncall of one value of one type), boundary (the empty / zero value),
 //       seq (2-5 values of different types back to back), dec-elems (unsorted / duplicate element
 //       streams read into associative containers), dec-count (top-level count changed by a small delta)
+#include <sanitizer/common_interface_defs.h>
 #include "common/proto.h"
 #include "h_ser_api.h"
 
 using vh::Case;
+
+// A corrupted element count makes the real code resize a container to whatever the stream says.  Keep
+// that from exhausting the machine, and turn the sanitizer's abort into a recorded failing input
+// (the op being executed is written out, the run's files are completed) instead of a bare crash.
+extern "C" const char *__asan_default_options() { return "max_allocation_size_mb=512:hard_rss_limit_mb=4096"; }
+static vh::Runner *g_runner = nullptr;
+static std::string g_cur_op;
+static void on_sanitizer_death() {
+  vh::Runner *r = g_runner;
+  g_runner = nullptr;
+  if (!r || !r->f_ops) return;
+  fprintf(r->f_ops, "%s\n", g_cur_op.c_str());
+  fprintf(r->f_impl, "aborted\n");
+  fprintf(r->f_or, "ORACLE-FAIL case=%llu class=none prop=C15 implementation aborted under the sanitizer in: %s\n",
+          (unsigned long long)r->n_cases, g_cur_op.substr(0, 300).c_str());
+  ++r->n_fail;
+  r->finish();
+}
 
 struct SerHarness : vh::Harness {
   ser_api::Backend *le = ser_backend_le(), *be = ser_backend_be();
@@ -28,6 +47,8 @@ struct SerHarness : vh::Harness {
     if (w.size() < 2) return "bad-op";
     ser_api::Backend *b = backend(w[1]);
     if (!b) return "bad-op";
+    g_cur_op.clear();
+    for (size_t i = 0; i < w.size(); ++i) g_cur_op += (i ? " " : "") + w[i];
     ser_api::ExecResult r = b->exec(w);
     for (auto &f : r.failures) pending.push_back(f);
     if (w[0] == "truncall" && r.line.size() > 6 && r.line[6] != '-') trunc_points += r.line.size() - 6;
@@ -54,14 +75,13 @@ struct SerHarness : vh::Harness {
   }
 };
 
-static const char *kBoundary[] = {nullptr};
-
 int main(int argc, char **argv) {
-  (void)kBoundary;
   vh::Runner R;
   R.parse(argc, argv);
   SerHarness H;
   R.h = &H;
+  g_runner = &R;
+  __sanitizer_set_death_callback(on_sanitizer_death);
   if (R.run_replay()) { R.finish(); return 0; }
   vh::Rng rng(R.seed);
   ser_api::Backend *bs[2] = {H.le, H.be};
@@ -70,7 +90,7 @@ int main(int argc, char **argv) {
   for (int bi = 0; bi < 2; ++bi) {
     ser_api::Backend *b = bs[bi];
     for (auto &ti : b->types()) {
-      size_t nval = th ? 60 : 8;
+      size_t nval = th ? 400 : 40;
       for (size_t k = 0; k < nval; ++k) {
         int budget = k == 0 ? -5 : (k % 4 == 3 ? 3 : 2);    // k = 0: smallest values (mostly empty containers)
         std::string val = b->gen(ti.desc, rng.next(), budget);
@@ -89,7 +109,7 @@ int main(int argc, char **argv) {
     }
   }
   // (2) several values of different types in one stream
-  size_t nseq = th ? 4000 : 500;
+  size_t nseq = th ? 40000 : 4000;
   for (size_t it = 0; it < nseq; ++it) {
     ser_api::Backend *b = bs[rng.below(2)];
     auto ts = b->types();
@@ -106,7 +126,7 @@ int main(int argc, char **argv) {
   }
   // (3) streams that are not the image of a container: element sequences with duplicates / unsorted
   // keys read into associative containers; a top-level count that is too small / too large
-  size_t ndec = th ? 40 : 6;
+  size_t ndec = th ? 300 : 30;
   for (int bi = 0; bi < 2; ++bi) {
     ser_api::Backend *b = bs[bi];
     for (auto &ti : b->types()) {
